@@ -73,7 +73,7 @@ def _one_parse(e, s):
     old = signal.signal(signal.SIGPROF, on)
     try:
         try:
-            signal.setitimer(signal.ITIMER_PROF, 0.4)
+            signal.setitimer(signal.ITIMER_PROF, 0.4, 0.25)
             return e.parse_string(s)
         finally:
             signal.setitimer(signal.ITIMER_PROF, 0)
@@ -134,7 +134,7 @@ def guarded(f, t=3.0):
     old = signal.signal(signal.SIGPROF, on)
     try:
         try:
-            signal.setitimer(signal.ITIMER_PROF, t)
+            signal.setitimer(signal.ITIMER_PROF, t, 0.25)
             return f()
         finally:
             signal.setitimer(signal.ITIMER_PROF, 0)
